@@ -1101,3 +1101,36 @@ package solver
 //@     invariant idx: 0 <= i && 0 <= j && i < len(pb.Clauses) && (!modified ==> c == pb.Clauses[i])
 //@     invariant fix: !modified ==> forall(i2, 0, i, i2 < len(pb.Clauses) ==> cleanC(pb, pb.Clauses[i2]))
 //@     invariant cur: !modified ==> forall(k, 0, j, k < len(c.lits) ==> pb.Model[c.lits[k] / 2] == 0)
+
+// ---------------------------------------------------------------- parse-time simplification of clauses (C01)
+
+// A is compatible with the parse-time model (values 0 / 1 / -1)
+//@ define agreesM(m []decLevel, A asg) bool = forall(v, 0, len(m), m[v] != 0 ==> (A[v] <==> m[v] == 1))
+// some literal among the first n of the clause is true under A (written as a sum so that the
+// swap-with-last removals are handled by the update lemma of psum)
+//@ define someTrue(c *Clause, n int, A asg) bool = psum(c.lits, nil, A, n) >= 1
+
+// simplify2, scan of one clause: for every assignment A compatible with the current top-level
+// model, the literals kept so far (the first nbLits) contain a literal true under A exactly when
+// the clause as it was before the scan did -- removing duplicates and literals false at the top
+// level never changes the meaning of the clause (invariant sem, loops 3 and 4); and the clause is
+// only declared satisfied (tautology, or a literal true at the top level) when every such A
+// satisfies it (assertion sat). The bookkeeping around the scan (unit rule, restart, removal of
+// satisfied clauses from the list) is not specified here.
+//@ func (*Problem).simplify2
+//@   ghost A asg
+//@   inline-calls (Lit).Var, (Lit).IsPositive, (Lit).Negation, (*Problem).addUnit, (*Clause).First, (*Clause).Shrink
+//@   requires nn: pb != nil
+//@   modifies pb.Status, pb.Clauses, pb.Clauses[*], pb.Units, pb.Units[*], pb.Model[*], all Clause.lits, all []Lit, all pbData.weights, all pbData.watched
+//@   assert body-end 4 elem4:  lem_psum_elem(c.lits, nil, A, nbLits, j)
+//@   assert after-loop 4 elemj: lem_psum_elem(c.lits, nil, A, nbLits, j) && lem_psum_elem(c.lits, nil, A, nbLits, k)
+//@   assert after-loop 3 same: agreesM(pb.Model, A) && entry3(forall(k, 0, len(c.lits), c.lits[k] >= 0)) ==> (someTrue(c, nbLits, A) <==> entry3(someTrue(c, len(c.lits), A)))
+//@   assert after-loop 3 sat:  agreesM(pb.Model, A) && entry3(forall(k, 0, len(c.lits), c.lits[k] >= 0)) && clauseSat ==> entry3(someTrue(c, len(c.lits), A))
+//@   loop 3
+//@     invariant idx: 0 <= j && j <= nbLits && nbLits <= len(c.lits) && c.lits == entry3(c.lits) && !clauseSat
+//@     invariant nn:  entry3(forall(k, 0, len(c.lits), c.lits[k] >= 0)) ==> forall(k, 0, nbLits, c.lits[k] >= 0)
+//@     invariant sem: agreesM(pb.Model, A) && entry3(forall(k, 0, len(c.lits), c.lits[k] >= 0)) ==> (someTrue(c, nbLits, A) <==> entry3(someTrue(c, len(c.lits), A)))
+//@   loop 4
+//@     invariant idx: 0 <= j && j < k && k <= nbLits && nbLits <= len(c.lits) && c.lits == entry3(c.lits) && !clauseSat && lit == c.lits[j]
+//@     invariant nn:  entry3(forall(k2, 0, len(c.lits), c.lits[k2] >= 0)) ==> forall(k2, 0, nbLits, c.lits[k2] >= 0)
+//@     invariant sem: agreesM(pb.Model, A) && entry3(forall(k2, 0, len(c.lits), c.lits[k2] >= 0)) ==> (someTrue(c, nbLits, A) <==> entry3(someTrue(c, len(c.lits), A)))
